@@ -60,6 +60,15 @@ def pred_sparse(d) -> bool:
     return path in ("graph.sparse_initializer", "training_info") or path.startswith(("graph.sparse_initializer[", "training_info["))
 
 
+ALIAS_RE = re.compile(r"(\.t|\.tensors\[\d+\]|\.sparse_tensor\.(values|indices))\.name$")
+
+
+def pred_alias(d) -> bool:
+    """C15-ALIAS: an attribute TensorProto of the caller's proto gets its `name` written by the IR (write-through)."""
+    path, kind, _ = d
+    return kind in ("added", "changed") and bool(ALIAS_RE.search(path))
+
+
 def capi_path_taken(opset: int, o: dict) -> bool:
     """convert_version falls through to onnx's C API (fallback=True and the converter does not support the step)."""
     t = o.get("target_version")
@@ -87,6 +96,8 @@ def driver_tables(drv: core.Driver) -> dict:
     for a in names:
         lines += [f"path {a} proto", f"path {a} ir", f"touches {a}"]
     lines += ["inline 0", "inline 1", "path convert_version_old proto"]
+    route_lines = [f"route {a} {e}" for a in ("optimize", "fold_constants", "convert_version") for e in ("proto", "ir")]
+    route_outs = drv.ask(route_lines)
     outs = drv.ask(lines)
     t = {}
     for i, a in enumerate(names):
@@ -96,6 +107,12 @@ def driver_tables(drv: core.Driver) -> dict:
                 "touches": set(filter(None, outs[3 * i + 2].split(",")))}
     t["_inline"] = {"0": outs[-3], "1": outs[-2]}
     t["_convert_old"] = parse_path(outs[-1])
+    t["_route"] = {}
+    for ln, o_ in zip(route_lines, route_outs):
+        if o_ == "bad-op":
+            raise core.Infra("driver rejected " + ln)
+        _, a, e = ln.split()
+        t["_route"][(a, e)] = dict(kv.split("<-") for kv in o_.split(","))
     return t
 
 
@@ -111,16 +128,42 @@ def _payload_bytes_expected(t):
     return t.raw_data
 
 
+def serde_refuses(M):
+    from onnxscript import ir
+
+    if not any(a.type in (11, 12) for n in M.graph.node for a in n.attribute):  # SPARSE_TENSOR(S)
+        return None
+    try:
+        ir.serde.deserialize_model(copy.deepcopy(M))
+        return None
+    except Exception as e:  # noqa: BLE001
+        return type(e).__name__
+
+
 def check_serde(M, stats: Counter) -> list:
     """Returns problems [(kind, finding_id|None, detail)] for one model; kind in {property}."""
     from onnxscript import ir
 
     problems = []
+    if serde_refuses(M):
+        stats["serde_refused_models"] += 1  # a loud refusal (NotImplementedError: sparse tensors), nothing is lost silently
+        return problems
     before = M.SerializeToString(deterministic=True)
     m = ir.serde.deserialize_model(M)
     N1 = ir.serde.serialize_model(m)
     if M.SerializeToString(deterministic=True) != before:
         problems.append(("property", None, "deserialize/serialize mutated the source ModelProto"))
+    def graphs(g, prefix):
+        yield prefix, g
+        for i, n in enumerate(g.node):
+            for j, a in enumerate(n.attribute):
+                if a.HasField("g"):
+                    yield from graphs(a.g, f"{prefix}.node[{i}].attribute[{j}].g")
+                for k_, sg in enumerate(a.graphs):
+                    yield from graphs(sg, f"{prefix}.node[{i}].attribute[{j}].graphs[{k_}]")
+
+    gm = dict(graphs(M.graph, "graph"))
+    gn = dict(graphs(N1.graph, "graph"))
     inits = {t.name: t for t in M.graph.initializer}
     for p, k, det in c15_cmp.diff(M, N1):
         d = (p, k, det)
@@ -128,10 +171,11 @@ def check_serde(M, stats: Counter) -> list:
         if k in ("dropped-default",):
             continue
         if k == "added":
-            mm = re.fullmatch(r"graph\.value_info\['([^']*)'\]", p)
-            if mm and mm.group(1) in inits:
-                vi = next(v for v in N1.graph.value_info if v.name == mm.group(1))
-                t = inits[mm.group(1)]
+            mm = re.fullmatch(r"(graph(?:\.node\[\d+\]\.attribute\[\d+\]\.(?:g|graphs\[\d+\]))*)\.value_info\['([^']*)'\]", p)
+            ginits = {t.name: t for t in gm[mm.group(1)].initializer} if mm and mm.group(1) in gm else {}
+            if mm and mm.group(2) in ginits:
+                vi = next(v for v in gn[mm.group(1)].value_info if v.name == mm.group(2))
+                t = ginits[mm.group(2)]
                 tt = vi.type.tensor_type
                 if tt.elem_type == t.data_type and [x.dim_value for x in tt.shape.dim] == list(t.dims) and not vi.doc_string and not vi.metadata_props:
                     stats["serde_added_initializer_annotation"] += 1
@@ -222,9 +266,29 @@ def fine_untouched(NM, P) -> list:
 
 def check_wrapper(api: str, M, o: dict, opset: int, tables: dict, stats: Counter) -> list:
     """Run one API on both entries.  Problems: (kind in {property, tie}, finding_id|None, detail)."""
+    problems = []
+    refusal = serde_refuses(M)
+    if refusal:
+        # onnx_ir refuses the model (sparse tensor attribute): every proto entry must raise that and change nothing
+        stats["serde_refused_models"] += 1
+        if api == "rewrite_empty":
+            return problems
+        Mp = copy.deepcopy(M)
+        fns = None
+        if api == "replace_functions":
+            Mp, fns = c15_api.split_functions(Mp)
+        before = Mp.SerializeToString(deterministic=True)
+        try:
+            c15_api.call_proto(api, Mp, o, fns)
+            problems.append(("property", None, f"{api}: deserialisation refuses the model ({refusal}) but the proto entry returned"))
+        except Exception as e:  # noqa: BLE001
+            if type(e).__name__ != refusal:
+                problems.append(("tie", None, f"{api}: proto entry raised {type(e).__name__}, deserialisation raises {refusal}"))
+        if Mp.SerializeToString(deterministic=True) != before:
+            problems.append(("property", None, f"{api}: raised on an unsupported model but modified the caller's proto"))
+        return problems
     ob = c15_api.observe(api, M, o)
     tab = tables[DRIVER_API[api]]
-    problems = []
     M0, P, Q, NM = ob["M"], ob["P"], ob["Q"], ob["NM"]
     stats[f"api_{api}"] += 1
     # ---- errors: same on both entries, proto argument untouched
@@ -240,7 +304,7 @@ def check_wrapper(api: str, M, o: dict, opset: int, tables: dict, stats: Counter
     # ---- O1: proto(f)(M) = ser(ir(f)(de M))   (up to map order / explicit defaults; empty rules: up to N)
     if api == "rewrite_empty":
         for d in c15_cmp.hard(c15_cmp.diff(P, Q)):
-            if d[1] == "added" and d[0].startswith("graph.value_info["):
+            if d[1] == "added" and re.search(r"(^graph|\.g|\.graphs\[\d+\])\.value_info\[[^\]]*\]$", d[0]):
                 continue
             problems.append(("property", "C15-TMETA" if pred_tmeta(d) else "C15-SPARSE" if pred_sparse(d) else None,
                              f"rewrite(M, []) vs ser(rewrite(de M, [])): {d}"))
@@ -257,7 +321,7 @@ def check_wrapper(api: str, M, o: dict, opset: int, tables: dict, stats: Counter
         # never re-serialised by the wrapper: must still hold everything the caller had (byte identity is T2's business)
         for d in c15_cmp.hard(c15_cmp.diff(M0, P)):
             c = c15_cmp.carrier_of_path(d[0])
-            if c in caller_kept - touched and not (d[1] == "added" and d[0].startswith("graph.value_info[")):
+            if c in caller_kept - touched and not (d[1] == "added" and re.search(r"(^graph|\.g|\.graphs\[\d+\])\.value_info\[[^\]]*\]$", d[0])):
                 fid = "C15-TMETA" if pred_tmeta(d) else None
                 problems.append(("property", fid, f"{api}{o}: carrier {c} kept from the caller differs from M: {d}"))
     for d in hard_np:
@@ -284,9 +348,14 @@ def check_wrapper(api: str, M, o: dict, opset: int, tables: dict, stats: Counter
             problems.append(("property", None, f"{api}{o}: in-place variant left its argument unchanged although the result differs"))
     else:
         if pm["arg_mutated"]:
-            problems.append(("property", None, f"{api}{o}: non-in-place variant modified the caller's proto"))
+            dd = c15_cmp.diff(M0, ob["Mp"])
+            fid = "C15-ALIAS" if dd and all(pred_alias(x) for x in dd) else None
+            stats["arg_written_through"] += 1
+            problems.append(("property", fid, f"{api}{o}: non-in-place variant modified the caller's proto: {dd[:3]}"))
     if ob["ir"]["input_proto_mutated"]:
-        problems.append(("property", None, f"{api}{o}: running the IR entry modified the proto the IR model was deserialised from"))
+        dd = c15_cmp.diff(M0, ob["Mi"])
+        fid = "C15-ALIAS" if dd and all(pred_alias(x) for x in dd) else None
+        problems.append(("property", fid, f"{api}{o}: running the IR entry modified the proto the IR model was deserialised from: {dd[:3]}"))
     if ob.get("fns_mutated"):
         problems.append(("property", None, "replace_functions modified the FunctionProtos it was given"))
 
@@ -312,6 +381,7 @@ def check_wrapper(api: str, M, o: dict, opset: int, tables: dict, stats: Counter
         if not ok:
             src = "caller" if cP[c] == cM[c] else "serialised-IR" if cP[c] == cQ[c] else "neither"
             problems.append(("tie", None, f"{api}{o}: carrier {c} of the proto result holds {src} content, model says {expr}"))
+    # "M" = never assigned and never reachable by write-through; "M~" = the caller's content up to serde aliasing
     arg_pred_unchanged = all(v == "M" for v in tab["proto"]["arg"].values())
     if arg_pred_unchanged and pm["arg_mutated"]:
         problems.append(("tie", None, f"{api}: model says the argument is not assigned, but it changed"))
@@ -324,6 +394,8 @@ def check_wrapper(api: str, M, o: dict, opset: int, tables: dict, stats: Counter
 
 
 def check_inline(M, tables: dict, stats: Counter) -> list:
+    if serde_refuses(M):
+        return []
     r = c15_api.run_inline(M)
     key = "1" if r["had_functions"] else "0"
     pred = dict(kv.split("=") for kv in tables["_inline"][key].split(";"))
@@ -344,6 +416,23 @@ def check_inline(M, tables: dict, stats: Counter) -> list:
     return out
 
 
+def check_routing(M, tables: dict, stats: Counter) -> list:
+    """Option routing of both entries (recorded at the IR-level callee) vs the Lean `route` table."""
+    out = []
+    obs = c15_api.observe_routing(M)
+    for (api, entry), got in obs.items():
+        want = tables["_route"][(api, entry)]
+        for param, src in got.items():
+            stats["routes_checked"] += 1
+            if want.get(param) != src:
+                out.append(("tie", None, f"{api} [{entry} entry]: parameter {param} of the IR-level implementation receives "
+                            f"the caller's '{src}', model says '{want.get(param)}'"))
+    for api in ("optimize", "fold_constants", "convert_version"):
+        if obs[(api, "proto")] != obs[(api, "ir")]:
+            out.append(("tie", None, f"{api}: the two entries route options differently: proto {obs[(api, 'proto')]} vs ir {obs[(api, 'ir')]}"))
+    return out
+
+
 # --------------------------------------------------------------------------- cases
 
 
@@ -360,6 +449,8 @@ def run_case(case: dict, tables: dict, stats: Counter) -> list:
         return check_serde(M, stats)
     if api == "inline":
         return check_inline(M, tables, stats)
+    if api == "routing":
+        return check_routing(M, tables, stats)
     return check_wrapper(api, M, case.get("options", {}), info["features"]["opset"], tables, stats)
 
 
@@ -370,7 +461,8 @@ SHRINK_OFF = {
     "unused_function": False, "functions_reversed": False, "unused_opset": False, "opsets_shuffled": False,
     "producer": False, "domain": False, "model_version": False, "model_doc": False, "model_meta": False,
     "explicit_defaults": False, "symbolic_batch": False, "function_doc": False, "function_meta": False,
-    "function_value_info": False, "w2_raw": False, "tensor_meta": False, "other_fields": False, "function_dead_node": False,
+    "function_value_info": False, "w2_raw": False, "const_tensor_node": "none", "expand_fold": "none",
+    "sparse_attr": False, "subgraph_if": False, "second_custom_domain": False, "expand_from_constant_nodes": False, "tensor_meta": False, "other_fields": False, "function_dead_node": False,
 }
 
 
@@ -469,6 +561,17 @@ def replay_known(run: core.Run, stats: Counter) -> None:
     if lost and "C15-SPARSE" in open_ids:
         run.known("C15-SPARSE", "remove_unused_nodes(proto) (Clear+CopyFrom of the re-serialised IR) deletes "
                   "graph.sparse_initializer and training_info: the IR has no carrier for them")
+    # ALIAS: optimize(proto) writes the lifted constant's name into the caller's attribute tensor
+    import onnx.parser
+
+    m = onnx.parser.parse_model('<ir_version: 9, opset_import: ["" : 18]> agraph (float[2] x) => (float[2] y) '
+                                '{ c = Constant <value = float[2] {1.0, 2.0}> ()\n y = Add (x, c) }')
+    m0 = copy.deepcopy(m)
+    opt.optimize(m)
+    dd = c15_cmp.diff(m0, m)
+    stats["witness_ALIAS"] = int(bool(dd) and all(pred_alias(x) for x in dd))
+    if stats["witness_ALIAS"] and "C15-ALIAS" in open_ids:
+        run.known("C15-ALIAS", f"optimize(ModelProto) modified its argument: {[(x[0], x[2]) for x in dd]}")
     # FALLBACK
     m = W["C15-FALLBACK"]
     p = copy.deepcopy(m)
@@ -590,6 +693,7 @@ def _main(run: core.Run, audit: dict, tables: dict, stats: Counter) -> None:
 
     for case in corpus:
         do(case)
+    do({"api": "routing", "gen_seed": 1, "features": {"function_call": True}})
     # stream 1: serde contract
     for _ in range(n_serde):
         seed = run.rng.getrandbits(48)
